@@ -54,6 +54,9 @@ pub struct ClientCase {
     /// connections cut before or during the TLS handshake are retryable failures like any other
     #[serde(default)]
     pub tls: bool,
+    /// handshake timeout of the client in ms (0 = the 1 s all timing oracles assume)
+    #[serde(default)]
+    pub handshake_timeout_ms: u32,
 }
 
 pub fn rt() -> &'static tokio::runtime::Runtime {
@@ -150,7 +153,7 @@ async fn serve_mux(ws: tokio_tungstenite::WebSocketStream<DynStream>, how: Attem
 
 async fn fake_server(listener: TcpListener, script: Vec<Attempt>, obs: Arc<Mutex<Obs>>, t0: Instant, tcp_reset: bool, tls: Option<Arc<rustls::ServerConfig>>) {
     let mut n = 0usize;
-    let mut held = vec![];
+    let mut held: Vec<tokio::net::TcpStream> = vec![];
     loop {
         let Ok((mut stream, _)) = listener.accept().await else { continue };
         let how = script.get(n).copied().unwrap_or(*script.last().unwrap());
@@ -170,7 +173,19 @@ async fn fake_server(listener: TcpListener, script: Vec<Attempt>, obs: Arc<Mutex
                 obs.lock().unwrap().attempts[idx].2 = Some(t0.elapsed().as_millis() as u64);
                 drop(stream);
             }
-            Attempt::AcceptAndStall => held.push(stream),
+            Attempt::AcceptAndStall => {
+                // never answer; keep the socket until the client gives it up (then release ours too)
+                let _ = &mut held;
+                tokio::spawn(async move {
+                    let mut b = [0u8; 512];
+                    loop {
+                        match stream.read(&mut b).await {
+                            Ok(0) | Err(_) => break,
+                            Ok(_) => {}
+                        }
+                    }
+                });
+            }
             Attempt::Http403 => {
                 let mut stream: DynStream = match &tls {
                     None => Box::new(stream),
@@ -241,6 +256,7 @@ fn expected_delay(k: u32, max: u64) -> u64 {
 
 /// how long the case needs at most, from the script
 fn budget_ms(c: &ClientCase) -> u64 {
+    let hs = if c.handshake_timeout_ms == 0 { 1000 } else { c.handshake_timeout_ms as u64 + 30 };
     let mut t = 0u64;
     let mut k = 0u32;
     for a in &c.script {
@@ -250,7 +266,7 @@ fn budget_ms(c: &ClientCase) -> u64 {
                 k += 1;
             }
             Attempt::AcceptAndStall => {
-                t += 1000 + expected_delay(k, c.max_retry_interval);
+                t += hs + expected_delay(k, c.max_retry_interval);
                 k += 1;
             }
             Attempt::ServeThenClose(d) | Attempt::ServeThenDrop(d) | Attempt::SilentThenDrop(d) => {
@@ -290,7 +306,7 @@ pub async fn run_client_case(c: &ClientCase) -> Result<RunOut, String> {
         keepalive_timeout: OptionalDuration::NONE,
         max_retry_count: c.max_retry_count,
         max_retry_interval: c.max_retry_interval,
-        handshake_timeout: OptionalDuration::from_secs(1),
+        handshake_timeout: if c.handshake_timeout_ms == 0 { OptionalDuration::from_secs(1) } else { OptionalDuration::from(Duration::from_millis(c.handshake_timeout_ms as u64)) },
         channel_timeout: OptionalDuration::from_secs(1),
         ..Default::default()
     }));
@@ -596,6 +612,36 @@ pub fn check(c: &ClientCase) -> Outcome {
     }
 }
 
+/// Very many consecutive handshake timeouts with few file descriptors to spare: a client that "never gives up" (max_retry_count 0)
+/// must still be retrying after 150 attempts against a server that accepts TCP and never answers, and must reach the healthy
+/// server behind them; every abandoned attempt has to release what it held.
+pub fn check_many_stalls(n: &u32) -> Outcome {
+    let n = *n as usize;
+    let mut script = vec![Attempt::AcceptAndStall; n];
+    script.push(Attempt::Healthy);
+    let c = ClientCase { script, max_retry_count: 0, max_retry_interval: 20, local_after_attempt: None, local_delay_ms: 0, udp_burst: 0, tcp_reset: false, tls: false, handshake_timeout_ms: 50 };
+    // descriptors: what is open now + room for a handful of connections
+    let open_now = std::fs::read_dir("/proc/self/fd").map(|d| d.count()).unwrap_or(64) as u64;
+    let mut old = libc::rlimit { rlim_cur: 0, rlim_max: 0 };
+    unsafe { libc::getrlimit(libc::RLIMIT_NOFILE, &mut old) };
+    let tight = libc::rlimit { rlim_cur: (open_now + 70).min(old.rlim_max), rlim_max: old.rlim_max };
+    unsafe { libc::setrlimit(libc::RLIMIT_NOFILE, &tight) };
+    let r = rt().block_on(run_client_case(&c));
+    unsafe { libc::setrlimit(libc::RLIMIT_NOFILE, &old) };
+    let r = match r {
+        Ok(r) => r,
+        Err(e) => return Outcome::inconclusive(format!("harness: {e}")),
+    };
+    let seen = r.obs.attempts.len();
+    if let Some((at, how)) = &r.client_end {
+        return Outcome::violation("c19-gave-up:many-handshake-timeouts", format!("max_retry_count = 0, a server that accepts TCP and never answers the handshake (handshake timeout 50 ms, {} descriptors to spare): after {seen} attempts the client ended at {at} ms with {how}", 70));
+    }
+    if seen <= n {
+        return Outcome::violation("c19-no-reconnect:many-handshake-timeouts", format!("only {seen} of {} attempts arrived within {} ms; the healthy server behind the stalled attempts was never reached", n + 1, r.wall_ms));
+    }
+    Outcome::pass(true, vec!["150-consecutive-handshake-timeouts"])
+}
+
 fn attempt() -> impl Strategy<Value = Attempt> {
     prop_oneof![
         5 => Just(Attempt::AcceptAndDrop),
@@ -623,27 +669,27 @@ fn client_case_plain() -> impl Strategy<Value = ClientCase> {
             }
             let la = la.map(|x| x.min(script.len() as u8));
             script.push(Attempt::Healthy);
-            ClientCase { script, max_retry_count: mrc, max_retry_interval: mri, local_after_attempt: la, local_delay_ms: ld, udp_burst: burst, tcp_reset, tls }
+            ClientCase { script, max_retry_count: mrc, max_retry_interval: mri, local_after_attempt: la, local_delay_ms: ld, udp_burst: burst, tcp_reset, tls, handshake_timeout_ms: 0 }
         }),
         // a stalled stream request: handshake, then silence; the local connection must be served by the next connection
-        1 => (200u64..1000, 0u16..200).prop_map(|(mri, ld)| ClientCase { script: vec![Attempt::HandshakeThenSilent, Attempt::Healthy], max_retry_count: 0, max_retry_interval: mri, local_after_attempt: Some(0), local_delay_ms: ld, udp_burst: 0, tcp_reset: false, tls: false }),
+        1 => (200u64..1000, 0u16..200).prop_map(|(mri, ld)| ClientCase { script: vec![Attempt::HandshakeThenSilent, Attempt::Healthy], max_retry_count: 0, max_retry_interval: mri, local_after_attempt: Some(0), local_delay_ms: ld, udp_burst: 0, tcp_reset: false, tls: false, handshake_timeout_ms: 0 }),
         // a stream request is pending (never answered) when the connection is dropped: it must be parked and served by the next connection
-        2 => (200u64..1000, 30u16..400, 0u16..20, any::<bool>()).prop_map(|(mri, d, ld, tcp_reset)| ClientCase { script: vec![Attempt::SilentThenDrop(d), Attempt::Healthy], max_retry_count: 0, max_retry_interval: mri, local_after_attempt: Some(0), local_delay_ms: ld, udp_burst: 0, tcp_reset, tls: false }),
+        2 => (200u64..1000, 30u16..400, 0u16..20, any::<bool>()).prop_map(|(mri, d, ld, tcp_reset)| ClientCase { script: vec![Attempt::SilentThenDrop(d), Attempt::Healthy], max_retry_count: 0, max_retry_interval: mri, local_after_attempt: Some(0), local_delay_ms: ld, udp_burst: 0, tcp_reset, tls: false, handshake_timeout_ms: 0 }),
         // giving up after max_retry_count
         2 => (1u32..=4, 200u64..700, prop::bool::weighted(0.2)).prop_map(|(mrc, mri, stall)| {
             let mut script = vec![Attempt::AcceptAndDrop; mrc as usize + 2];
             if stall {
                 script[0] = Attempt::AcceptAndStall;
             }
-            ClientCase { script, max_retry_count: mrc, max_retry_interval: mri, local_after_attempt: None, local_delay_ms: 0, udp_burst: 0, tcp_reset: false, tls: false }
+            ClientCase { script, max_retry_count: mrc, max_retry_interval: mri, local_after_attempt: None, local_delay_ms: 0, udp_burst: 0, tcp_reset: false, tls: false, handshake_timeout_ms: 0 }
         }),
         // never giving up with max_retry_count = 0
-        1 => (200u64..500).prop_map(|mri| ClientCase { script: vec![Attempt::AcceptAndDrop; 6], max_retry_count: 0, max_retry_interval: mri, local_after_attempt: None, local_delay_ms: 0, udp_burst: 0, tcp_reset: false, tls: false }),
+        1 => (200u64..500).prop_map(|mri| ClientCase { script: vec![Attempt::AcceptAndDrop; 6], max_retry_count: 0, max_retry_interval: mri, local_after_attempt: None, local_delay_ms: 0, udp_burst: 0, tcp_reset: false, tls: false, handshake_timeout_ms: 0 }),
         // non-retryable answer
         1 => (prop::collection::vec(Just(Attempt::AcceptAndDrop), 0..3), 200u64..800).prop_map(|(mut script, mri)| {
             script.push(Attempt::Http403);
             script.push(Attempt::Healthy);
-            ClientCase { script, max_retry_count: 0, max_retry_interval: mri, local_after_attempt: None, local_delay_ms: 0, udp_burst: 0, tcp_reset: false, tls: false }
+            ClientCase { script, max_retry_count: 0, max_retry_interval: mri, local_after_attempt: None, local_delay_ms: 0, udp_burst: 0, tcp_reset: false, tls: false, handshake_timeout_ms: 0 }
         }),
     ]
 }
@@ -662,6 +708,8 @@ pub fn run(ctx: &Ctx, rep: &mut Report) {
     vf_pure::backoff::sections(ctx, rep);
     ctx.max_shrink_iters.store(12, std::sync::atomic::Ordering::Relaxed);
     ctx.prop(rep, "client", ctx.tier.pick(64, 1_200), 8, client_case, check);
+    // many consecutive timeouts with few descriptors to spare (runs alone: the limit is process-wide while it lasts)
+    ctx.enumerate(rep, "many-handshake-timeouts", 1, 1, |_| 150u32, check_many_stalls);
     // directed: three failures (200, 400, 800 ms), a served connection that is then lost, and the delay before the next
     // attempt, which must be the shortest one again; the limit is high enough for the steps to differ by more than the slack
     ctx.enumerate(
@@ -672,7 +720,7 @@ pub fn run(ctx: &Ctx, rep: &mut Report) {
         |i| {
             let served = if i % 2 == 0 { Attempt::ServeThenClose(40 + 20 * (i as u16 / 4)) } else { Attempt::ServeThenDrop(40 + 20 * (i as u16 / 4)) };
             let mri = if (i / 2) % 2 == 0 { 3200 } else { 1600 };
-            ClientCase { script: vec![Attempt::AcceptAndDrop, Attempt::AcceptAndDrop, Attempt::AcceptAndDrop, served, Attempt::AcceptAndDrop, Attempt::Healthy], max_retry_count: 0, max_retry_interval: mri, local_after_attempt: Some(4), local_delay_ms: 10, udp_burst: if i % 2 == 0 { 200 } else { 0 }, tcp_reset: (i / 2) % 2 == 1, tls: i % 4 == 3 }
+            ClientCase { script: vec![Attempt::AcceptAndDrop, Attempt::AcceptAndDrop, Attempt::AcceptAndDrop, served, Attempt::AcceptAndDrop, Attempt::Healthy], max_retry_count: 0, max_retry_interval: mri, local_after_attempt: Some(4), local_delay_ms: 10, udp_burst: if i % 2 == 0 { 200 } else { 0 }, tcp_reset: (i / 2) % 2 == 1, tls: i % 4 == 3, handshake_timeout_ms: 0 }
         },
         check,
     );
